@@ -11,7 +11,7 @@
 #define NULLREF 0u
 #define REACH(msg) __CPROVER_assert(0, "REACH " msg)
 typedef unsigned ElemRef;
-unsigned nondet_unsigned(void); bool nondet_bool(void); int nondet_int(void);
+unsigned nondet_unsigned(void); bool nondet_bool(void); int nondet_int(void); double nondet_double(void);
 bool in_heap[NEL], dirty[NEL]; unsigned keys_written[NEL];
 ElemRef LOOKUP[NLK]; unsigned LOOKUP_n;                     /* the lookup the function walks (incoming / outgoing handles of the vertex) */
 ElemRef LOOKUP2[NLK]; unsigned LOOKUP2_n; bool in_lookup_new; ElemRef inserted;
